@@ -134,6 +134,8 @@ pub struct Agg {
     pub iters_moved: u64,
     pub env_reads: u64,
     pub env_perturbed: u64,
+    pub cpu_reads: u64,
+    pub large_input_outcomes: u64,
     pub env_keys: Vec<String>,
     pub env_plan_runs: u64,
     pub edges: u64,
@@ -207,6 +209,8 @@ impl Agg {
         self.iters_moved += r.iters_moved;
         self.env_reads += r.env_reads;
         self.env_perturbed += r.env_perturbed;
+        self.cpu_reads += r.cpu_reads;
+        self.large_input_outcomes += r.large_input_outcomes;
         for k in &r.env_keys {
             if self.env_keys.len() < 16 && !self.env_keys.contains(k) {
                 self.env_keys.push(k.clone());
@@ -523,10 +527,11 @@ pub fn check(tier_name: &str, base_seed: u64) -> Outcome {
     );
     let seam_clock = crate::clock::selftest();
     let seam_env = crate::envseam::selftest();
-    if !(seam_clock && seam_env) {
+    let seam_cpus = crate::envseam::selftest_cpus();
+    if !(seam_clock && seam_env && seam_cpus) {
         println!(
-            "note: seam self-test: clock={} environment={} (a seam that does not work only means the corresponding fault kind is not injected)",
-            seam_clock, seam_env
+            "note: seam self-test: clock={} environment={} cpu-count={} (a seam that does not work only means the corresponding fault kind is not injected)",
+            seam_clock, seam_env, seam_cpus
         );
     }
     let iter_send = crate::probe::iter_send_probe();
@@ -825,6 +830,12 @@ pub fn check(tier_name: &str, base_seed: u64) -> Outcome {
             ex.agg.env_reads, ex.agg.env_keys, ex.agg.env_perturbed
         );
     }
+    if ex.agg.cpu_reads > 0 {
+        println!(
+            "WARNING: the library asked for the number of CPUs inside API calls ({} queries); in runs with a perturbation plan it was shown 1 to 12 CPUs",
+            ex.agg.cpu_reads
+        );
+    }
     if ex.agg.path_impure > 0 {
         println!(
             "WARNING: {} calls took a different path through the library than the same request earlier in the same process (results equal the reference): e.g. {:?}",
@@ -1107,8 +1118,10 @@ pub fn check(tier_name: &str, base_seed: u64) -> Outcome {
                 "F12_environment_reads_by_the_library_inside_calls": a.env_reads,
                 "F12_environment_reads_answered_from_the_perturbation_plan": a.env_perturbed,
                 "F12_environment_variables_read": a.env_keys,
+                "F12_cpu_count_queries_by_the_library_inside_calls": a.cpu_reads,
             },
             "harness_probes": {
+                "compared_outcomes_of_calls_with_haystacks_of_4096_bytes_or_more": a.large_input_outcomes,
                 "calls_overlapping_on_same_object": a.same_obj_overlap,
                 "runs_with_same_object_overlap": a.runs_same_obj_overlap,
                 "second_live_iterator_on_same_object": a.live_iter_overlap,
@@ -1139,7 +1152,7 @@ pub fn check(tier_name: &str, base_seed: u64) -> Outcome {
                 "live_iterators_handed_to_another_thread": a.iters_moved,
                 "note": "handing a live iterator to another thread is only legal (and only done) when its type is Send on the tree under test",
             },
-            "seam_selftests": { "clock_gettime_interposed": seam_clock, "getenv_interposed": seam_env },
+            "seam_selftests": { "clock_gettime_interposed": seam_clock, "getenv_interposed": seam_env, "sched_getaffinity_sysconf_interposed": seam_cpus },
             "path_purity": {
                 "explanation": "per call, the sequence of hook sites hit (the path through the library) is hashed; within one worker process the same request must always take the same path. A difference is not a C18 violation (results are compared separately) but shows history- or address-dependent behaviour; it is reported as a warning.",
                 "calls_that_took_another_path_than_the_same_request_earlier": a.path_impure,
